@@ -79,6 +79,15 @@ def make_cases(tier, seed):
         cases.append({"kind": "bench", "fen": fen, "moves": [], "deep": False})
     for fam, fen in probes:
         cases.append({"kind": "probe:" + fam, "fen": fen, "moves": [], "deep": False})
+    # lines through the king x the pawns of an en-passant capture / every pinned piece type (all directions, both colours)
+    geom = P.line_geometry_families()
+    if tier == "quick":
+        geom = [g for i, g in enumerate(geom) if g[0] != "ep-line" or i % 2 == seed % 2]
+    for fam, fen in geom:
+        cases.append({"kind": "probe:" + fam, "fen": fen, "moves": [], "deep": False})
+    clocks = P.clock_families()
+    for fam, fen in clocks:
+        cases.append({"kind": "probe:" + fam, "fen": fen, "moves": [], "deep": False})
     # random legal walks chosen by the engine's own generator
     nwalks = 120 if tier == "quick" else 3000
     maxlen = 36 if tier == "quick" else 60
@@ -86,6 +95,9 @@ def make_cases(tier, seed):
     pool = corpus + bench
     for i in range(nwalks):
         starts.append(pool[0] if i % 3 == 0 else pool[rng.randrange(len(pool))])
+    # walks that step the counters across their boundaries (fifty-move limit, byte edge, large move numbers)
+    cl = [fen for _, fen in clocks]
+    starts += cl if tier != "quick" else [cl[(i * 5 + seed) % len(cl)] for i in range(28)]
     rc, so, se = C.driver(["randwalk", str(seed), str(maxlen)], "\n".join(starts) + "\n", timeout=600)
     if rc != 0:
         raise RuntimeError("randwalk failed: " + se[-1000:])
